@@ -14,8 +14,10 @@ TRUSTED = ["Model/Tessellation.v (vertex / edge interning, signed cell key, reve
            "create_lattice by exact correspondence; Qhull (scipy.spatial.Voronoi) is an oracle: the harness calls it with the same "
            "centres and hands its regions to the model; round() is an oracle"]
 ASSUMPTIONS = ["regions in which two consecutive corners round to the same point (zero-length ridge after rounding) are not judged"]
-TESTED_NOT_PROVED = ["'one cell per bounded region below the cut-off, with the region's rounded corners as cycle' and 'all cells in the same "
-                     "rotational sense' are evaluated by the oracle against scipy's diagram"]
+TESTED_NOT_PROVED = ["'one cell per bounded region below the cut-off, with the region's rounded corners as cycle' is evaluated by the oracle against "
+                     "scipy's diagram; 'all cells in the same rotational sense' is proved over the reals for the rule of the model "
+                     "(C19_stored_cycles_share_one_sense: sign taken on the doubled vertex list, reversal when positive) and re-checked on the "
+                     "implementation by the oracle"]
 IMPORTS = "From Forsys Require Import Model.Num Model.CaseUtil Model.Geometry Model.Tessellation.\n"
 
 
